@@ -173,6 +173,13 @@ def hex_malformed_cases(rng, tier):
         for pfx in (b"T1", b"t1", b"T2", b"T0", b"1T", b"TT", b"11", b"\x00\x00", b"T\xff", b"\xd41", b" 1", b"T "):
             for mode in ("auto", "with", "empty"):
                 cases.append("parse %s %s %s" % (v, mode, hx(pfx + good[2:])))
+        # damage on lower-case and mixed-case spellings (a rejecting path that looks at letter case)
+        for base in (good[:2] + good[2:].lower(), mixed_case(rng, good.decode()).encode()):
+            for pos in sorted(set([2, 3, 2 + 2 * VARIANTS[v][0], ls // 2, ls - 2, ls - 1] + [rng.below(ls) for _ in range(4)])):
+                for val in (0x47, 0x67, 0x40, 0x7A, 0x00, 0xFF):
+                    d = bytearray(base)
+                    d[pos] = val
+                    cases.append("parse %s %s %s" % (v, rng.choice(["auto", "with"]), hx(d)))
         # a well-formed string with something stuck in front of / behind it (a parser that strips or trims first would accept these)
         for d in affixed(good):
             for mode in ("auto", "with", "empty"):
